@@ -615,8 +615,9 @@ def implicit(m: Model, d: Data):
       outputs=[d.qLU],
     )
 
-    # 3. Compute RNE derivatives, scale by timestep, and subtract in-place from qLU
-    derivative.deriv_rne_vel(m, d, d.qLU, flg_subtract=True)
+    # 3. Compute RNE (bias force) derivatives, scale by timestep, and add in-place to qLU:
+    # qfrc_smooth contains -qfrc_bias, so M - dt * d(qfrc_smooth)/dv gains + dt * d(qfrc_bias)/dv
+    derivative.deriv_rne_vel(m, d, d.qLU, flg_subtract=False)
 
     # 4. Factorize and solve: qacc = qLU \ Ma
     qacc = wp.empty((d.nworld, m.nv), dtype=float)
